@@ -172,6 +172,8 @@ class Fn:
                     self._bind_pat(x, origin, path + [("some",)])
                 elif res.get("variant") in ("Ok",) and short(res.get("adt")) == "Result":
                     self._bind_pat(x, origin, path)
+                elif "Variant" in (res.get("dk") or "") and res.get("variant"):
+                    self._bind_pat(x, origin, path + [("v", short(res.get("adt")), res["variant"], i)])
                 else:
                     self._bind_pat(x, origin, path + [("f", short(res.get("adt") or res.get("path")), str(i))])
         elif k == "pstruct":
@@ -386,7 +388,8 @@ class Fn:
         if name in ("unwrap", "expect"):
             return t(recv).plus(("some",)) if rty.lstrip("&").startswith("core::option::Option<") else t(recv)
         extra = [t(a) for a in e["args"]]
-        return t(recv).plus(("call", name, extra))
+        ck = (e.get("callee") or {})
+        return t(recv).plus(("call", name, extra, ck.get("inst_key") or ck.get("key")))
 
     def _call(self, e, depth):
         t = lambda x: self.trace(x, depth + 1)
@@ -407,7 +410,7 @@ class Fn:
             return t(args[0])
         if args:
             extra = [t(a) for a in args[1:]]
-            return t(args[0]).plus(("call", name, extra))
+            return t(args[0]).plus(("call", name, extra, c.get("inst_key") or c.get("key")))
         return Chain(("callres", c.get("path")))
 
 
@@ -477,6 +480,7 @@ class Writer:
     def __init__(self, crate):
         self.crate = crate
         self._emits = {}
+        self.inlined = set()      # keys of the helper functions whose writes were inlined into a term
 
     def fn_emits(self, key, seen=()):
         if key in self._emits:
@@ -562,6 +566,7 @@ class Writer:
                 if depth > 4 or key == fn.body["key"]:
                     return ("rec", n, key, fn)
                 args = H.call_args(n)
+                self.inlined.add(key)
                 callee = Fn(self.crate, self.crate.by_key[key], subst={i: (fn, a) for i, a in enumerate(args)},
                             line_hook=fn.line_hook)
                 return ("inl", n, key, self.term(callee, callee.root, depth + 1), fn)
@@ -1373,30 +1378,168 @@ def sort_key_total(q, R, rid, cx, fn, o, key):
 
 
 
-def option_conditions(body_root, node, local_id):
-    """Is `node` evaluated only when the Option in local `local_id` is Some / None?  -> set of {"some", "none"} established by the
-    enclosing `if let` / `match` / is_some() / is_none() conditions."""
+COMPLEMENT = {"Some": "None", "None": "Some", "Ok": "Err", "Err": "Ok"}
+
+
+def variant_conditions(root, node, is_scrut):
+    """Which variant of a two-variant enum value (Option / Result; `is_scrut(expr)` recognises the inspected value) is
+    established whenever `node` is evaluated: through `if let`, `match` arms, `let .. else` (after it, and inside its else
+    block), `is_some()/is_none()/is_ok()/is_err()` tests and early exits.  -> set of variant names."""
     out = set()
-    for kind, cn, pol in H.path_conditions(body_root, node):
-        if kind == "iflet":
+    for kind, cn, pol in H.path_conditions(root, node):
+        if kind == "iflet" and is_scrut(cn["init"]):
             v = H.pat_variant(cn["pat"])
-            loc = H.local_of(cn["init"])
-            if v and loc and loc[0] == local_id and v[1] in ("Some", "None"):
-                is_some = (v[1] == "Some") == bool(pol)
-                out.add("some" if is_some else "none")
-        elif kind == "arm":
-            loc = H.local_of(cn["scrut"])
-            if loc and loc[0] == local_id:
-                a = cn["arms"][pol]
-                v = H.pat_variant(a["pat"])
-                others = [H.pat_variant(x["pat"]) for x in cn["arms"] if x is not a]
-                if v and v[1] in ("Some", "None"):
-                    out.add(v[1].lower())
-                elif H.pat_peel(a["pat"]).get("k") == "wild" and len(others) == 1 and others[0] and others[0][1] in ("Some", "None"):
-                    out.add("none" if others[0][1] == "Some" else "some")
+            if v and v[1] in COMPLEMENT:
+                out.add(v[1] if pol else COMPLEMENT[v[1]])
+        elif kind == "arm" and is_scrut(cn["scrut"]):
+            a = cn["arms"][pol]
+            v = H.pat_variant(a["pat"])
+            others = [H.pat_variant(x["pat"]) for x in cn["arms"] if x is not a]
+            if v and v[1] in COMPLEMENT:
+                out.add(v[1])
+            elif H.pat_peel(a["pat"]).get("k") in ("wild", "bind") and len(others) == 1 and others[0] and others[0][1] in COMPLEMENT:
+                out.add(COMPLEMENT[others[0][1]])
+        elif kind == "letelse" and is_scrut(cn["init"]):
+            v = H.pat_variant(cn["pat"])
+            if v and v[1] in COMPLEMENT:
+                out.add(v[1])
         elif kind in ("if", "after-exit"):
             inner, neg = H.negate_peel(cn)
-            if inner.get("k") == "mcall" and inner["name"] in ("is_some", "is_none") and H.local_of(inner["recv"]) and H.local_of(inner["recv"])[0] == local_id:
+            tests = {"is_some": "Some", "is_none": "None", "is_ok": "Ok", "is_err": "Err"}
+            if inner.get("k") == "mcall" and inner["name"] in tests and is_scrut(inner["recv"]):
                 val = (pol != neg)
-                out.add("some" if (inner["name"] == "is_some") == val else "none")
+                t = tests[inner["name"]]
+                out.add(t if val else COMPLEMENT[t])
+    chain = (H.parents_of(root, node) or []) + [node]
+    for i, p in enumerate(chain[:-1]):
+        if p.get("k") == "let" and p.get("els") is chain[i + 1] and "init" in p and is_scrut(p["init"]):
+            v = H.pat_variant(p["pat"])
+            if v and v[1] in COMPLEMENT:
+                out.add(COMPLEMENT[v[1]])
+    return out
+
+
+def option_conditions(body_root, node, local_id):
+    """{"some"} / {"none"}: what the enclosing conditions establish about the Option in local `local_id` at `node`."""
+    def is_scrut(e):
+        loc = H.local_of(e)
+        return bool(loc) and loc[0] == local_id
+    return set(x.lower() for x in variant_conditions(body_root, node, is_scrut))
+
+
+# ------------------------------------------------------------------------------------------------
+# value alternatives: the same value written as if/else, early return in a helper, Option::filter(..).unwrap_or(..)
+# ------------------------------------------------------------------------------------------------
+def alternatives(fn, e, depth=0, conds=()):
+    """[(conds, Chain)]: the places/values an expression can evaluate to, with the boolean conditions that select them
+    (conds: tuple of (condition expr, truth value, Fn)).  Follows `let` bindings, `if c {a} else {b}`, blocks with early
+    `if c { return x; }`, calls of repository helper functions (inlined with their arguments), `opt.filter(p).unwrap_or(d)`
+    and `opt.map(|x| ..)`.  Everything else is one alternative: `fn.trace(e)`."""
+    one = lambda: [(conds, fn.trace(e))]
+    if depth > 10:
+        return one()
+    e = H.peel(e)
+    k = e.get("k")
+    nxt = lambda f, x, c=conds: alternatives(f, x, depth + 1, c)
+    if k == "path" and e["res"].get("r") == "local":
+        b = fn.binds.get(e["res"]["id"])
+        if b is not None and b.origin[0] in ("let", "letexpr") and "init" in b.origin[1]:
+            return [(c, fn._apply_path(ch, b.path, 0)) for c, ch in nxt(fn, b.origin[1]["init"])]
+        if b is not None and b.origin[0] == "param" and b.origin[1] in fn.subst:
+            cf, arg = fn.subst[b.origin[1]]
+            return [(c, fn._apply_path(ch, b.path, 0)) for c, ch in nxt(cf, arg)]
+        if b is not None and b.origin[0] == "cparam":
+            cl = b.origin[1]
+            par = fn.parent.get(id(cl))
+            if par is not None and par.get("k") == "mcall" and par["name"] in ("map", "and_then") and \
+                    (H.peel(par["recv"]).get("tya") or H.peel(par["recv"]).get("ty") or "").lstrip("&").startswith("core::option::Option<"):
+                return [(c, fn._apply_path(ch.plus(("some",)), b.path, 0)) for c, ch in nxt(fn, par["recv"])]
+        return one()
+    if k == "if" and "else" in e and H.peel(e["cond"], refs=False).get("k") != "letexpr":
+        return nxt(fn, e["then"], conds + ((e["cond"], True, fn),)) + nxt(fn, e["else"], conds + ((e["cond"], False, fn),))
+    if k == "block":
+        out, cur = [], conds
+        for st in e["stmts"]:
+            st0 = H.peel(st, refs=False)
+            if st0.get("k") == "if" and "else" not in st0 and H.diverges(st0["then"]) and H.peel(st0["cond"], refs=False).get("k") != "letexpr":
+                rets = [x for x in H.walk(st0["then"], into_closures=False) if x.get("k") == "ret" and "e" in x]
+                if len(rets) != 1:
+                    return one()
+                out += nxt(fn, rets[0]["e"], cur + ((st0["cond"], True, fn),))
+                cur = cur + ((st0["cond"], False, fn),)
+            elif any(x.get("k") == "ret" for x in H.walk(st, into_closures=False)):
+                return one()
+        if "tail" in e:
+            return out + nxt(fn, e["tail"], cur)
+        return one()
+    if k == "ret" and "e" in e:
+        return nxt(fn, e["e"])
+    if k == "call":
+        c = e.get("callee") or {}
+        key = c.get("inst_key") or c.get("key")
+        cb = fn.crate.by_key.get(key)
+        if cb is not None and not c.get("dk", "").startswith("Ctor") and key != fn.body["key"] and fn.getter_field(c) is None:
+            callee = Fn(fn.crate, cb, subst={i: (fn, a) for i, a in enumerate(e.get("args", []))}, line_hook=fn.line_hook)
+            return nxt(callee, callee.root)
+        return one()
+    if k == "mcall":
+        name = e["name"]
+        c = e.get("callee") or {}
+        key = c.get("inst_key") or c.get("key")
+        cb = fn.crate.by_key.get(key)
+        if cb is not None and key != fn.body["key"] and fn.getter_field(c) is None and not (fn.line_hook and fn.line_hook(fn, e) is not None):
+            # a repository method with a body: only followed when it is a pure selector (early returns / if-else of places)
+            args = H.call_args(e)
+            callee = Fn(fn.crate, cb, subst={i: (fn, a) for i, a in enumerate(args)}, line_hook=fn.line_hook)
+            alts = nxt(callee, callee.root)
+            if len(alts) > 1:
+                return alts
+            return one()
+        if name in ("unwrap_or", "unwrap_or_else") and e["args"]:
+            r = H.peel(e["recv"])
+            a = H.peel(e["args"][0])
+            alt_e = a["body"] if a.get("k") == "closure" else a
+            if r.get("k") == "mcall" and r["name"] == "filter" and r["args"] and H.peel(r["args"][0]).get("k") == "closure":
+                pred = H.peel(r["args"][0])["body"]
+                out = []
+                for c1, ch in nxt(fn, r["recv"]):
+                    for c2, alt in nxt(fn, alt_e):
+                        out.append((c1 + c2 + ((pred, True, fn),), ch.plus(("call", "unwrap_or", alt, None))))
+                for c2, alt in nxt(fn, alt_e):
+                    out.append((c2 + ((pred, False, fn),), alt))
+                return out
+            return one()
+        if name == "map" and e["args"] and H.peel(e["args"][0]).get("k") == "closure":
+            return nxt(fn, H.peel(e["args"][0])["body"])
+        if name in PASS:
+            return nxt(fn, e["recv"])
+        return one()
+    return one()
+
+
+def option_value_branches(fn, nodes):
+    """Value-producing two-way branches on an Option among `nodes`: [(node, sel_some, sel_none, scrutinee expr)] for
+    `if let Some(..) = x { a } else { b }` and `match x { Some(..) => a, None | _ => b }`."""
+    out = []
+    for x in nodes:
+        if x.get("ty") in ("()", None, "!"):
+            continue
+        if x.get("k") == "if" and "else" in x:
+            c = H.peel(x["cond"], refs=False)
+            if c.get("k") == "letexpr":
+                v = H.pat_variant(c["pat"])
+                if v and v[1] == "Some":
+                    out.append((x, {id(x): True}, {id(x): False}, c["init"]))
+                elif v and v[1] == "None":
+                    out.append((x, {id(x): False}, {id(x): True}, c["init"]))
+        elif x.get("k") == "match" and len(x["arms"]) == 2 and not any("guard" in a for a in x["arms"]):
+            some = none = None
+            for ai, a in enumerate(x["arms"]):
+                v = H.pat_variant(a["pat"])
+                if v and v[1] == "Some" and short(v[0]) == "Option":
+                    some = ai
+                elif (v and v[1] == "None") or H.pat_peel(a["pat"]).get("k") == "wild":
+                    none = ai
+            if some is not None and none is not None:
+                out.append((x, {id(x): some}, {id(x): none}, x["scrut"]))
     return out
